@@ -271,11 +271,27 @@ func checkDN(c dnCase) []vf.Finding {
 
 var otherTypes = []string{"CN", "OU", "O", "L", "ADC", "DCX", "UID", "C", "ST"}
 
+// genLabel draws the value of a DC component: what a dc attribute holds. That is a DNS label of 1..63
+// characters (mostly short; the full 63 now and then), and besides letters, digits and inner hyphens
+// it may contain the characters of the names Active Directory itself creates: '_' (service labels
+// such as _msdcs, _tcp; host names with underscores), and '.', '@' and '*' (the dnsNode / dnsZone
+// objects of AD-integrated DNS: DC=@,DC=corp.local,CN=MicrosoftDNS,...). None of them is special in a
+// DN, so they stand unescaped, and the domain is the dot-join of the values as they stand.
 func genLabel(t *rapid.T) string {
-	n := rapid.IntRange(1, 12).Draw(t, "labelLen")
+	var n int
+	switch rapid.IntRange(0, 7).Draw(t, "labelLenClass") {
+	case 0:
+		n = rapid.IntRange(13, 63).Draw(t, "labelLenLong")
+	case 1:
+		n = 63
+	default:
+		n = rapid.IntRange(1, 12).Draw(t, "labelLen")
+	}
 	rs := make([]rune, n)
 	for i := range rs {
 		switch rapid.IntRange(0, 9).Draw(t, "lc") {
+		case 3:
+			rs[i] = rapid.SampledFrom([]rune{'_', '.', '@', '*'}).Draw(t, "adChar")
 		case 0:
 			rs[i] = rune(rapid.IntRange('0', '9').Draw(t, "d"))
 		case 1:
@@ -285,8 +301,8 @@ func genLabel(t *rapid.T) string {
 				rs[i] = 'x'
 			}
 		case 2:
-			// a letter or digit of the shared alphabet (stated assumption: DC values are DNS labels; the
-			// alphabet also offers controls, spaces and format characters, which no label contains)
+			// a letter or digit of the shared alphabet (the alphabet also offers controls, spaces and
+			// format characters, which no dc value contains)
 			for {
 				if r := alpha.Rune(t, `,+"\<>;=# .`); unicode.IsLetter(r) || unicode.IsDigit(r) {
 					rs[i] = r
